@@ -9,6 +9,7 @@ spec functions (`specfn`).
 import ast
 import z3
 from .types import *
+from . import types as T
 from . import ops
 from .state import ClassSpec
 
@@ -155,6 +156,39 @@ def opt_get(sv):
         return SV(inner, sv.t)
     s = sort_of(ty)
     return unpack(inner, s.accessor(1, 0)(sv.t))
+
+
+def index_patterns(body, j, limit=6):
+    """triggers for a quantifier over an index j: the element reads A[j] (A free of j, no nested quantifier) in the body,
+    each as an alternative single pattern - any ground read A[t] instantiates the quantifier at t"""
+    found = {}
+    seen = set()
+
+    def mentions(t):
+        if z3.eq(t, j):
+            return True
+        if z3.is_app(t):
+            return any(mentions(c) for c in t.children())
+        return False
+
+    def walk(t, depth=0):
+        if t.get_id() in seen or depth > 60:
+            return
+        seen.add(t.get_id())
+        if z3.is_quantifier(t):
+            return
+        if z3.is_app(t):
+            if t.decl().kind() == z3.Z3_OP_SELECT and len(t.children()) == 2:
+                a, i = t.children()
+                if z3.eq(i, j) and not mentions(a) and not T._has_ite(a):
+                    found[t.get_id()] = t
+            for c in t.children():
+                walk(c, depth + 1)
+    try:
+        walk(body)
+    except Exception:
+        return []
+    return list(found.values())[:limit]
 
 
 class SpecEval(object):
@@ -454,9 +488,16 @@ class SpecEval(object):
             guard = z3.And(0 <= j, j < ctx.st.list_len(lst))
         conds = [self.as_bool(self.ev(c, c2), c2) for c in g.ifs]
         body = self.as_bool(self.ev(gen_node.elt, c2), c2)
+        full = z3.Implies(z3.And(guard, *conds), body) if universal else z3.And(guard, body, *conds)
+        pats = index_patterns(full, j)
         if universal:
-            return mk_bool(z3.ForAll([j], z3.Implies(z3.And(guard, *conds), body)))
-        return mk_bool(z3.Exists([j], z3.And(guard, body, *conds)))
+            return mk_bool(forall([j], full, patterns=pats) if pats else z3.ForAll([j], full))
+        if pats:
+            try:
+                return mk_bool(z3.Exists([j], full, patterns=pats))
+            except z3.Z3Exception:
+                pass
+        return mk_bool(z3.Exists([j], full))
 
     def ev_Call(self, n, ctx):
         if isinstance(n.func, ast.Attribute):
